@@ -20,7 +20,7 @@ _built = {}
 FAMILY_BOUNDS = {
     'state_ops': 'all sequences of <= 8 operations over {push, pop, save(3 slots x 3 values), enter, commit, spush, spop} (iterative deepening within the time budget)',
     'iter': '~65 patterns x ~35 texts x backtrack limits {default,1,3,30}: find_iter / captures_iter / split / splitn(n = 0..pieces+1) vs the reference model driven by the real single-shot search',
-    'search': '~80 patterns x ~40 texts x every char-boundary start offset: entry-point coherence, offset validity, group metadata',
+    'search': '~80 corpus patterns + 462 group-metadata patterns (6 group forms x 11 quantifiers incl. {0} x 7 contexts, delegated and VM-compiled) x ~40 texts x every char-boundary start offset: entry-point coherence, offset validity, group metadata',
     'analyze': '~2000 patterns from a 3-level grammar (incl. huge repeat counts) : Info facts vs match-length sets enumerated up to 14 characters',
     'parse': 'all sequences of <= 3 tokens over a 63-token vocabulary of syntax fragments (254 079 patterns): no panic in Regex::new, parse-error position <= length, back-reference numbers < length',
     'expand': 'all templates of length <= 6 (quick: as many as fit in the time budget, lengths ascending; >= all of length <= 5) over {$ { } \\ g < > 0 1 9 x _ e-acute space} x 3 regex/captures setups (named, numbered, unmatched groups) x both expanders: expansion, append_expansion, escape round trip, check, Captures::expand',
